@@ -17,7 +17,7 @@ import (
 
 // pev is one event on a structured path through a function body.
 type pev struct {
-	Kind string // "+" guard taken, "-" guard not taken, "call", "assign", "return", "loop", "endloop", "case"
+	Kind string // "+" fact assumed on the path (a condition or its negation, in the normal form of canonCond), "call", "assign", "return", "loop", "endloop", "case", "branch"
 	Text string // normalised text (nospace)
 	Node ast.Node
 }
@@ -36,6 +36,13 @@ func (p bpath) String() string {
 func (p bpath) has(kind, text string) bool { return p.index(kind, text, 0) >= 0 }
 
 func (p bpath) index(kind, text string, from int) int {
+	// guards are recorded as facts in normal form: "+c" is the fact c, "-c" the fact not-c
+	switch kind {
+	case "+":
+		text = canonText(text, false)
+	case "-":
+		kind, text = "+", canonText(text, true)
+	}
 	for i := from; i < len(p); i++ {
 		if p[i].Kind == kind && p[i].Text == text {
 			return i
@@ -63,7 +70,7 @@ func enumPaths(body *ast.BlockStmt) []bpath {
 		p   bpath
 		brk int // > 0: an unlabelled break left the switch at this nesting level; statements are skipped until it ends
 	}
-	cur := []st{{}}     // live paths
+	cur := []st{{}}      // live paths
 	var finished []bpath // paths that returned or left the block
 	var stmts func(list []ast.Stmt)
 	addAll := func(evs ...pev) {
@@ -163,13 +170,12 @@ func enumPaths(body *ast.BlockStmt) []bpath {
 			stmt(x.Init)
 			addAll(callsOf(x.Cond)...)
 			before := cur
-			cond := nospace(x.Cond)
 			cur = clone(before)
-			addAll(pev{"+", cond, x})
+			addAll(pev{"+", canonCond(x.Cond, false), x})
 			stmts(x.Body.List)
 			thenArm := cur
 			cur = clone(before)
-			addAll(pev{"-", cond, x})
+			addAll(pev{"+", canonCond(x.Cond, true), x})
 			if x.Else != nil {
 				stmt(x.Else)
 			}
@@ -306,7 +312,7 @@ func extraGuards(p bpath, allowed ...string) []string {
 		}
 		ok := false
 		for _, a := range allowed {
-			if e.Text == a {
+			if e.Text == canonText(a, false) || e.Text == canonText(a, true) {
 				ok = true
 			}
 		}
@@ -403,17 +409,11 @@ func builderFlow(c *Ctx, g *load.G) {
 		var bad []string
 		nMain := 0
 		for _, p := range paths {
-			pos := 0
-			for _, e := range p {
-				if e.Kind == "+" {
-					pos++
-				}
-			}
 			last := p[len(p)-1]
-			if pos > 0 {
-				// an error path: returns a non-nil error and writes nothing
-				if last.Kind != "return" || last.Text == "nil" || last.Text == b+".err" {
-					bad = append(bad, where(last.Node)+": the path under ["+strings.Join(p.guards(), " ")+"] does not return an error of its own")
+			// the accepting path is the one that ends in `return b.err` (or nil); every other return rejects the grammar
+			if !(last.Kind == "return" && (last.Text == b+".err" || last.Text == "nil")) {
+				if last.Kind != "return" {
+					bad = append(bad, where(last.Node)+": the path under ["+strings.Join(p.guards(), " ")+"] does not end in a return")
 				}
 				for _, e := range p {
 					if e.Kind == "call" && strings.HasPrefix(e.Text, b+".write") {
